@@ -525,8 +525,18 @@ def pmap(fn, items, procs=None):
     if procs <= 1 or len(items) <= 1:
         return [fn(x) for x in items]
     ctx = mp.get_context("fork")
-    with ctx.Pool(procs) as pool:
+    with ctx.Pool(procs, initializer=_worker_init) as pool:
         return pool.map(fn, items, chunksize=max(1, len(items) // (procs * 8)))
+
+
+def _worker_init():
+    """Pool workers compile what they need in memory but never save to numba's on-disk cache: concurrent savers corrupt its index
+    (an entry can end up pointing at another specialisation's code, which then silently computes garbage)."""
+    try:
+        import numba.core.caching as nc
+        nc.Cache.save_overload = lambda self, sig, data: None
+    except Exception:
+        pass
 
 
 # --------------------------------------------------------------------------- enumerated cases (B3)
